@@ -139,6 +139,8 @@ def check(ctx):
              'the first packet sets CONNECTED, signals link_established once and unhooks itself; body %s' % body)
 
     all_updated_rules(ctx)
+    from .c11 import cached_table_adoption_rule
+    cached_table_adoption_rule(ctx, 'R2')
     session_hygiene_rules(ctx)
 
     # ---- R3 ------------------------------------------------------------------------
@@ -484,9 +486,23 @@ def session_hygiene_rules(ctx):
     finished fetchers really unregister (shared with C07.R4/R6), the memory subsystem fails pending requests with its lock released
     (a failure callback starts the next write), and Latency.stop() only touches state its constructor created."""
     m = ctx.model
-    from .c07 import port_registration_rules, removal_predicate_rules
+    from .c07 import caller_rules, port_registration_rules, removal_predicate_rules
     removal_predicate_rules(ctx, 'R13')
     port_registration_rules(ctx, 'R13')
+    # the public signals (disconnected, connection_lost, ...) are Caller lists: listeners that unregister themselves while being called
+    # (the fetchers, SyncCrazyflie) must not make the next listener miss the signal (shared with C07.R2)
+    caller_rules(ctx, 'R13')
+    # an aborted fetcher is stopped by the ValueError of removing its disconnect listener a second time: a finished-callback of a
+    # download that was already aborted would announce `connected` after `disconnected`.  Removing what is not registered must fail.
+    CBm = 'cflib/utils/callbacks.py'
+    rc = m.func(CBm, 'Caller.remove_callback')
+    from ..astutil import effective as _eff
+    body = [s_ for s_ in _eff(rc.node.body) if not (isinstance(s_, ast.Expr) and isinstance(s_.value, ast.Constant)) and
+            not (isinstance(s_, ast.Return) and (s_.value is None or (isinstance(s_.value, ast.Constant) and s_.value.value is None)))]
+    plain = len(body) == 1 and isinstance(body[0], ast.Expr) and method_call(body[0].value, 'remove') and norm(body[0].value.func.value) == 'self.callbacks' and \
+        [norm(a_) for a_ in body[0].value.args] == [rc.params[1]]
+    ctx.inst('R13', rc, 'remove-of-unregistered-raises', plain, 'Caller.remove_callback is list.remove: removing a callback that is not registered raises '
+             '(TocFetcher._toc_fetch_finished relies on it to stop after an abort); body %s' % [norm(s_)[:60] for s_ in body])
     ME_ = 'cflib/crazyflie/mem/__init__.py'
     caf = m.func(ME_, 'Memory._call_all_failed_callbacks')
     regs, g = regions(caf, 'self._write_requests_lock')
